@@ -55,9 +55,26 @@ Theorem C13_crashes_then_cleanup : forall (V : Type) (C : cfg V), framed C ->
   forallb is_crash tr = true -> run C s tr = Some s1 ->
   (forall t w, locks s t = LHeld w -> crashed_in tr w \/ live (w_pc (ws s w)) = false) ->
   exists s2, step C s1 ERemoveLocks = Some s2 /\ reach C r0 (tr0 ++ tr ++ [ERemoveLocks]) s2 /\
-             results s2 = results s /\ (forall t, locks s2 t = LFree).
+             results s2 = results s /\ (forall t, locks s2 t = LFree) /\ ws s2 = ws s1.
 Proof. exact crash_storm_then_cleanup. Qed.
 Print Assumptions C13_crashes_then_cleanup.
+
+(* recovery end to end: in any reachable state, everything that is not one of the new workers F is killed (or had
+   left already), the operator removes the stale locks, the new workers run: the cleanup is enabled, the store still
+   holds exactly the results it held, and at the new workers' quiescence every task that can have a result has one *)
+Theorem C13_recovery_end_to_end : forall (V : Type) (C : cfg V), framed C ->
+  forall rank, ranked C rank -> closed C ->
+  forall r0 tr0 s tr s1 (F : wid -> bool), reach C r0 tr0 s ->
+  forallb is_crash tr = true -> run C s tr = Some s1 ->
+  (forall w, F w = false -> crashed_in tr w \/ live (w_pc (ws s w)) = false) ->
+  (forall w, F w = true -> ws s w = fresh_w /\ ~ crashed_in tr w) ->
+  (forall t w, locks s t = LHeld w -> F w = false) ->
+  exists s2, step C s1 ERemoveLocks = Some s2 /\ results s2 = results s /\
+    forall tr' s', forallb (okev C) tr' = true -> run C s2 tr' = Some s' ->
+      quiescent F s' -> (exists w c, F w = true /\ w_pc (ws s' w) = PDone c) ->
+      forall t, In t (c_tasks C) -> (results s' t <> None <-> ~ doomed C (results s') t).
+Proof. exact recovery_end_to_end. Qed.
+Print Assumptions C13_recovery_end_to_end.
 
 (* after that a fresh execute (new workers F; everybody else dead or gone) completes the whole
    computation - and by C13_completed_work_survives without re-running anything that was complete *)
@@ -97,3 +114,20 @@ Example C13_nonvacuous_storm :
     step (prog_cfg ex_prog) s1 ERemoveLocks = Some s2 /\
     map (locks s2) [1; 2; 3]%positive = [LFree; LFree; LFree] /\ results s2 1%positive = Some ex_v1.
 Proof. do 3 eexists. vm_compute. repeat split; reflexivity. Qed.
+
+(* non-vacuity of C13_recovery_end_to_end: in the state of C13_nonvacuous_storm with F = every worker from 2 on, the
+   premises about workers and locks hold for ALL workers *)
+Example C13_nonvacuous_recovery :
+  exists s, run (prog_cfg ex_prog) (init (st_of [])) (firstn 17 ex_trace) = Some s /\
+    let tr : list (ev val) := [ECrash 1; ECrash 0] in let F := fun w => Nat.leb 2 w in
+    (forall w, F w = false -> crashed_in tr w \/ live (w_pc (ws s w)) = false) /\
+    (forall w, F w = true -> ws s w = fresh_w /\ ~ crashed_in tr w) /\
+    (forall t w, locks s t = LHeld w -> F w = false).
+Proof.
+  eexists. split; [vm_compute; reflexivity|]. cbv zeta. split; [|split].
+  - intros [|[|w]] H; [left; right; left; reflexivity | left; left; reflexivity | discriminate H].
+  - intros [|[|w]] H; [discriminate H | discriminate H |]. split; [reflexivity|].
+    intros [X|[X|[]]]; discriminate X.
+  - intros t w H. destruct w as [|[|w]]; [reflexivity | reflexivity | exfalso].
+    revert H. vm_compute. destruct t as [t|t|]; try destruct t; try discriminate.
+Qed.
